@@ -153,6 +153,58 @@ def lattice_case(j, e, sigma):
             if ok and th <= math.pi - 1e-6:
                 ok = float(np.max(np.abs(L - w))) <= TOL
             check(j, ok, site, feat, "wrong-logarithm", dict(detail, got=L.tolist()), cid)
+    elif k == "unit3":
+        # two-argument form exp(U, theta): U = unit twist of the zero-pitch screw (q, p), theta = n * angle(q)
+        S, th = twist_of(dict(c, an=0, ad=1))
+        U = S / th
+        U[:3] *= sigma
+        ang = c["n"] * th
+        feat = "unit3;n=%d;sigma=%g" % (c["n"], sigma)
+        detail = {"kind": k, "case": c, "sigma": sigma, "theta": ang, "unit_twist": U.tolist()}
+        forms = {"base.trexp(unit vec,theta)": lambda: b.trexp(U, ang),
+                 "base.trexp(unit matrix,theta)": lambda: b.trexp(b.skewa(U), ang),
+                 "Twist3.exp(theta)": lambda: Twist3(U).exp(ang).A,
+                 "Twist3.exp(theta,deg)": lambda: Twist3(U).exp(math.degrees(ang), "deg").A,
+                 "Twist3.exp([theta])": lambda: Twist3(U).exp([ang])[0].A,
+                 "Twist3*theta.exp": lambda: (Twist3(U) * ang).exp().A}
+        for site, fn in forms.items():
+            cid = (site, k, c["n"], sigma)
+            r = guard(j, site, feat, detail, cid, fn)
+            if r is not None:
+                d = float(np.max(np.abs(np.asarray(r, dtype=float) - M)))
+                check(j, d <= TOL * sc, site, feat, "differs-from-exp(theta*S)", dict(detail, distance=d), cid)
+        R, wu = M[:3, :3], U[3:]
+        for site, fn in {"base.trexp(so3 unit vec,theta)": lambda: b.trexp(wu, ang),
+                         "base.trexp(so3 unit matrix,theta)": lambda: b.trexp(b.skew(wu), ang),
+                         "base.rodrigues(unit,theta)": lambda: b.rodrigues(wu, ang)}.items():
+            cid = (site, k, c["n"])
+            r = guard(j, site, feat, detail, cid, fn)
+            if r is not None:
+                d = float(np.max(np.abs(np.asarray(r, dtype=float) - R)))
+                check(j, d <= TOL, site, feat, "differs-from-exp(theta*S)", dict(detail, distance=d), cid)
+    elif k == "unit2":
+        g, p = c["g"], np.array(c["p"][:2], dtype=float) * sigma
+        th = 2.0 * math.atan2(g[1], g[0])
+        H = gamma.T3(e["m"], sigma)
+        U = np.r_[p[1], -p[0], 1.0]
+        ang = c["n"] * th
+        feat = "unit2;n=%d;sigma=%g" % (c["n"], sigma)
+        detail = {"kind": k, "case": c, "sigma": sigma, "theta": ang, "unit_twist": U.tolist()}
+        sc = max(1.0, float(np.linalg.norm(H[:2, 2])), float(np.linalg.norm(p)))
+        forms = {"base.trexp2(unit vec,theta)": lambda: b.trexp2(U, ang),
+                 "base.trexp2(unit matrix,theta)": lambda: b.trexp2(b.skewa(U), ang),
+                 "Twist2.exp(theta)": lambda: Twist2(U).exp(ang).A,
+                 "Twist2.exp(theta,deg)": lambda: Twist2(U).exp(math.degrees(ang), "deg").A,
+                 "Twist2.exp([theta])": lambda: Twist2(U).exp([ang])[0].A,
+                 "Twist2*theta.exp": lambda: (Twist2(U) * ang).exp().A,
+                 "base.trexp2(so2 unit matrix,theta)": lambda: b.rt2tr(b.trexp2(b.skew(1.0), ang), H[:2, 2]),
+                 "base.trexp2(so2 unit vec,theta)": lambda: b.rt2tr(b.trexp2([1.0], ang), H[:2, 2])}
+        for site, fn in forms.items():
+            cid = (site, k, c["n"], sigma)
+            r = guard(j, site, feat, detail, cid, fn)
+            if r is not None:
+                d = float(np.max(np.abs(np.asarray(r, dtype=float) - H)))
+                check(j, d <= TOL * sc, site, feat, "differs-from-exp(theta*S)", dict(detail, distance=d), cid)
     elif k == "screw2":
         g, p = c["g"], np.array(c["p"][:2], dtype=float) * sigma
         th = 2.0 * math.atan2(g[1], g[0])
@@ -286,7 +338,11 @@ def run(tier):
         n += 1
         if e["c"]["k"] == "screw3" and not thorough and n % 4:
             continue
-        for s in ([1.0, 1e-6, 1e3, 1e6] if (thorough or n % 8 == 0 or e["c"]["k"] != "screw3") else [1.0]):
+        if e["c"]["k"] in ("unit3", "unit2"):
+            scales = [1.0, 1e3] if thorough else [1.0]
+        else:
+            scales = [1.0, 1e-6, 1e3, 1e6] if (thorough or n % 8 == 0 or e["c"]["k"] != "screw3") else [1.0]
+        for s in scales:
             lattice_case(j, e, s)
     if n < 3000:
         raise MachineryError("screw export too small: %d" % n)
